@@ -56,6 +56,14 @@ CLAIMED = {
         "remainder, a fallback (an outer variable) is used only for an absent component; SMT-decided per path, native replay.",
         "8 array patterns x arrays of 0..3 items, 6 tuple patterns x tuples over {x,y,z}, 4 set patterns x subsets of {0,1,2}; "
         "dict patterns, nesting, repeated names and compilePattern (AST -> pattern) are outside the registered bound"),
+    "C10": (
+        "Partial (operator kernel): bounded symbolic execution of the 21 binary and 6 unary operator expressions that can be built "
+        "without the parser, applied to every pair of kinds of the value universe (ill-typed operands included), and of two-"
+        "attribute tuple literals over the sugar attribute names with values of 5 kinds (folded and evaluated): Eval returns a "
+        "value or an error, never a Go panic; hangs would exceed the executor's step budget or be reported as deadlocks. Crashes "
+        "are replayed natively. Listed known findings (colliding array indices, ill-typed sugar tuples) are reported as such.",
+        "18x18 operand kinds with concrete representative numbers; 'for all byte strings offered as source' (lexer/parser/"
+        "compiler), the stdlib functions and the CLI/shell recover paths are outside; the import-cycle hang is checked under C16"),
     "C11": (
         "Narrow: two guest goroutines under the executor's cooperative scheduler (all interleavings within a context bound of 2 "
         "preemptions) share one value and perform the first use of its lazily cached state (GenericTuple Names/ordered names/"
